@@ -61,14 +61,19 @@ LINKMOVE = {"spec": {"r1": None, "r1/La": ["link", "../../outx"], "r1/f": "F", "
             "roots": ["r1"], "explicit": [], "mode": "path", "recursive": False, "hidden": False, "strategy": "stop",
             "answers": [], "plan": {"r1|La": "s/t", "r1|f": "s/t/f"}, "order": {"r1|La": 0, "r1|f": 1}, "sorted": True,
             "invert": False, "dry": False, "fault_at": None, "answer_style": 0}
+# seed C02-13: a renumbering chain visited from its near end in a SECOND input directory, after the first input directory has
+# produced a destination of the same relative name (bookkeeping keyed by the relative path must not confuse the two)
+TWINCHAIN = scen({"r1/a": "A1", "r2/a": "A2", "r2/b": "B2"}, {"r1|a": "b", "r2|a": "b", "r2|b": "c"}, roots=("r1", "r2"),
+                 order={"r1|a": 0, "r2|a": 1, "r2|b": 2})
+TWINCHAINi = dict(TWINCHAIN, strategy="ignore")
 K2 = scen({"r1/d": None, "r1/d/f": "F", "r1/l": ("link", "d")}, {"r1|d/f": "g", "r1|l/f": "g"}, recursive=True)
 K3 = scen({"r1/a": "A", "r1/l": ("link", "a")}, {"r1|a": "l"}, strategy="override")
 K5 = scen({"r1/a": "A", "r1/d": None, "r1/d/k": "K"}, {"r1|a": "d"}, strategy="override")
 
 CORPUS = {
     ("C01", "runs"): [F1, F1p, F13, F2, F4],
-    ("C02", "runs"): [F2, F2b, CHAINDIR],
-    ("C03", "runs"): [F3c, F1, F18, F18b, CHAINDIR, CHAINDIRi],
+    ("C02", "runs"): [F2, F2b, CHAINDIR, TWINCHAIN],
+    ("C03", "runs"): [F3c, F1, F18, F18b, CHAINDIR, CHAINDIRi, TWINCHAIN, TWINCHAINi],
     ("C04", "dry_plans"): [dict(F3, dry=True), dict(F14, dry=True), dict(F16, dry=True)],
     ("C05", "dry_vs_real"): [F1, F3, F3c, F14, F15, F16, F16d, F13, F18, K2, K3, K5],
     ("C06", "runs"): [F4, F16, F13, F18, F18b, F20, LINKMOVE],
